@@ -4,6 +4,7 @@ import (
 	"context"
 	"encoding/json"
 	"fmt"
+	"google.golang.org/grpc/codes"
 	"os"
 	"regexp"
 	"sort"
@@ -70,7 +71,7 @@ func renderRes(r resource.Resource, t0 time.Time) string {
 		md.Namespace(), md.Type(), md.ID(), md.Version(), md.Owner(), md.Phase(), *md.Finalizers(), ls, md.Created().Sub(t0), md.Updated().Sub(t0), payloadOf(r))
 }
 
-func runGrpcCase(t *testing.T, c gCase) (rows []string, problems []string, flags map[string]bool) {
+func runGrpcCase(t *testing.T, c gCase) (rows, wrows []string, problems []string, flags map[string]bool) {
 	flags = map[string]bool{}
 
 	synctest.Test(t, func(t *testing.T) {
@@ -91,6 +92,18 @@ func runGrpcCase(t *testing.T, c gCase) (rows []string, problems []string, flags
 		}
 
 		bes := []gBackend{mk("direct", false, false), mk("remote", true, false), mk("remote-fallback", true, true)}
+
+		// what travels on the wire of the native remote backend for Create / Update / Destroy (last call per RPC)
+		type wireRec struct {
+			owner string
+			exp   *string
+			code  codes.Code
+		}
+
+		lastWire := map[string]wireRec{}
+		bes[1].mc.unaryRec = func(rpc, owner string, exp *string, code codes.Code) {
+			lastWire[rpc] = wireRec{owner, exp, code}
+		}
 
 		type outcome struct {
 			err   errObs
@@ -127,7 +140,9 @@ func runGrpcCase(t *testing.T, c gCase) (rows []string, problems []string, flags
 					v, _ := resource.ParseVersion("1") //nolint:errcheck
 					r.Metadata().SetVersion(v)
 
-					if err := be.st.Update(ctx, r, state.WithUpdateOwner(o.Owner)); err != nil {
+					opt, _ := expOpt(o.Exp)
+
+					if err := be.st.Update(ctx, r, state.WithUpdateOwner(o.Owner), opt); err != nil {
 						return fail(err)
 					}
 
@@ -247,7 +262,54 @@ func runGrpcCase(t *testing.T, c gCase) (rows []string, problems []string, flags
 		for i, o := range c.Ops {
 			outs := make([]outcome, len(bes))
 			for j, be := range bes {
+				clear(lastWire)
+
 				outs[j] = run(be, o)
+
+				if rpc, ok := map[string]string{"create": "RCreate", "update": "RUpdate", "destroy": "RDestroy"}[o.Op]; ok && j == 1 {
+					if w, seen := lastWire[rpc]; seen {
+						exp := "None"
+
+						if rpc == "RUpdate" {
+							switch o.Exp {
+							case "", "running":
+								exp = "(Some false)"
+							case "tearingDown":
+								exp = "(Some true)"
+							}
+						}
+
+						wexp := "None"
+						if w.exp != nil {
+							wexp = "(Some " + coqBytes([]byte(*w.exp)) + ")"
+						}
+
+						direct := "None"
+						if outs[0].isErr {
+							direct = "(Some " + outs[0].err.coq() + ")"
+						}
+
+						code := "None"
+
+						switch w.code { //nolint:exhaustive
+						case codes.OK:
+						case codes.NotFound:
+							code = "(Some CNotFound)"
+						case codes.PermissionDenied:
+							code = "(Some CPermissionDenied)"
+						case codes.AlreadyExists:
+							code = "(Some CAlreadyExists)"
+						case codes.InvalidArgument:
+							code = "(Some CInvalidArgument)"
+						case codes.FailedPrecondition:
+							code = "(Some CFailedPrecondition)"
+						default:
+							code = "(Some CUnknown)"
+						}
+
+						wrows = append(wrows, fmt.Sprintf("(%s, %s, %s, (%s, %s), %s, %s)", rpc, coqAtom(o.Owner), exp, coqAtom(w.owner), wexp, direct, code))
+					}
+				}
 			}
 
 			for _, p := range takeServerPanics() {
@@ -308,7 +370,7 @@ func runGrpcCase(t *testing.T, c gCase) (rows []string, problems []string, flags
 		}
 	})
 
-	return rows, problems, flags
+	return rows, wrows, problems, flags
 }
 
 func regexpFor(id string) *regexpT { return mustRegexp("^" + id) }
@@ -365,12 +427,12 @@ func malformedGrid() []func(ctx context.Context, mc *memClient) (string, error) 
 
 	mds := map[string]*v1alpha1.Metadata{
 		"nil": nil, "empty": {}, "bad-version": {Namespace: "n1", Type: "T", Id: "x", Version: "abc", Phase: "running"},
-		"neg-version": {Namespace: "n1", Type: "T", Id: "x", Version: "-1", Phase: "running"},
-		"bad-phase":   {Namespace: "n1", Type: "T", Id: "x", Version: "1", Phase: "gone"},
-		"no-phase":    {Namespace: "n1", Type: "T", Id: "x", Version: "undefined"},
+		"neg-version":  {Namespace: "n1", Type: "T", Id: "x", Version: "-1", Phase: "running"},
+		"bad-phase":    {Namespace: "n1", Type: "T", Id: "x", Version: "1", Phase: "gone"},
+		"no-phase":     {Namespace: "n1", Type: "T", Id: "x", Version: "undefined"},
 		"unknown-type": {Namespace: "n1", Type: "NoSuchType", Id: "x", Version: "undefined", Phase: "running"},
-		"ok":          {Namespace: "n1", Type: "T", Id: "x", Version: "undefined", Phase: "running", Created: timestamppb.New(time.Unix(0, 0))},
-		"bad-ts":      {Namespace: "n1", Type: "T", Id: "x", Version: "undefined", Phase: "running", Created: &timestamppb.Timestamp{Seconds: 1 << 62, Nanos: -5}},
+		"ok":           {Namespace: "n1", Type: "T", Id: "x", Version: "undefined", Phase: "running", Created: timestamppb.New(time.Unix(0, 0))},
+		"bad-ts":       {Namespace: "n1", Type: "T", Id: "x", Version: "undefined", Phase: "running", Created: &timestamppb.Timestamp{Seconds: 1 << 62, Nanos: -5}},
 	}
 
 	specs := map[string]*v1alpha1.Spec{"nil": nil, "empty": {}, "bytes": {ProtoSpec: []byte("x")}, "yaml-only": {YamlSpec: "a: b"}}
@@ -566,7 +628,7 @@ func malformedGrid() []func(ctx context.Context, mc *memClient) (string, error) 
 func TestC11(t *testing.T) {
 	dir := outDir(t)
 	rep := newReport("C11", "(a) the same random call sequences (create/update/destroy/get/list with label and id queries/teardown/teardown-and-destroy/finalizers; owners, expected phases, stale versions) on the wrapped state directly, through the real client adapter + server (native lifecycle RPCs) and through a server without them (sticky fallbacks): "+
-		"success, error class under six qualifier combinations, written-back metadata incl. timestamps, results and final contents must be identical; (b) every error row (RPC, direct class, remote class) compared with the model's server_map/client_map; "+
+		"success, error class under six qualifier combinations, written-back metadata incl. timestamps, results and final contents must be identical; (b) every error row (RPC, direct class, remote class) compared with the model's server_map/client_map, and every distinct wire row (owner and expected-phase option in the Create/Update/Destroy request, status code of the answer) with GrpcOps.client_request and server_map; "+
 		"(c) a grid of malformed wire-level requests (nil/empty/garbage resources, metadata, specs, versions, phases, timestamps, every label operator incl. unknown ones with 0-2 values, bad regexps, every bookmark length, negative tails, option combinations refused for resource watches) against the real server: an error status or a normal answer, never a handler panic")
 
 	var cases []gCase
@@ -595,13 +657,15 @@ func TestC11(t *testing.T) {
 	}
 
 	f := newCoqFile("C11_errmap_rows", []string{"Grpc", "GrpcCheck"}, "grow", "grpc_mismatches")
+	// what travelled on the wire of the native remote backend, against GrpcOps.client_request / server_map
+	fw := newCoqFile("C11_wire_rows", []string{"Store", "Grpc", "GrpcCheck", "GrpcOps", "GrpcOpsCheck"}, "wrow", "wire_mismatches")
 
-	var jl []any
+	var jl, jlw []any
 
 	seenRows := map[string]bool{}
 
 	for i, c := range cases {
-		rows, problems, flags := runGrpcCase(t, c)
+		rows, wrows, problems, flags := runGrpcCase(t, c)
 
 		key, _ := json.Marshal(c)
 		rep.count(string(key), len(flags) >= 8)
@@ -630,9 +694,21 @@ func TestC11(t *testing.T) {
 			f.add(row)
 			jl = append(jl, map[string]any{"case": c})
 		}
+
+		for _, row := range wrows {
+			if seenRows["w"+row] {
+				continue
+			}
+
+			seenRows["w"+row] = true
+
+			fw.add(row)
+			jlw = append(jlw, map[string]any{"case": c})
+		}
 	}
 
 	f.finishSharded(t, dir, rep, jl, 400)
+	fw.finishSharded(t, dir, rep, jlw, 400)
 
 	// ---- (c) malformed requests ----
 	if os.Getenv("VERIF_REPLAY") == "" {
